@@ -7,6 +7,11 @@ import StirVerif.C07.Model
     upd <k> <subset> <1 if an inter-iteration filter call followed else 0> L <image…> G <gps…> S <sens…> [P <priorgrad…>] [F <inter-update filter output…>]
                                                                       -> image after `update_estimate`
     eoi <k> L <image…> F <inter-iteration filter output…>             -> image after `end_of_iteration_processing`
+    post <k> <num_subiterations> <1 if the post-filter was called at k else 0> L <iterate k before post-filtering…> [F <post-filter output…>]
+                                                                      -> image saved as iterate k (`endOfIterationPost`)
+    uimg <k> <subset> G <gps…> S <sens…> [P <priorgrad…>]             -> the image written by `write update image` (`updateImage`)
+    init 0|1 <nvox>   |   init file <nvox> V <image in the file…>     -> `get_initial_data_ptr()` (`initialData`)
+    bal <views> <d90> <d180> <swap_segment> <tof> <phi offset> <min_view> <max_view> <max_segment> <numSubsets>   -> ok | err (`setUpAcceptsSubsets`)
     Floats are C99 hex floats, parsed exactly; answers are exact rationals `p/q` (or inf, -inf, nan); a voxel whose
     division is within 2^-20 (relative) of the threshold of `stir::divide` is answered as `a|b` (both branches), a voxel
     whose quotient is non-zero / 0 as `*` (anything goes: outside the property, and -ffast-math territory). -/
@@ -127,6 +132,23 @@ def answerUpd (c : Cfg) (k : Nat) (img g s pg : Img) : String :=
     | none => fmtExt r
   " ".intercalate parts
 
+/-- answers for `uimg`: the voxels of the model's update image, with both branches of `stir::divide` near its threshold -/
+def answerUimg (c : Cfg) (k : Nat) (g s pg : Img) : String :=
+  let res := updateImage c k []          -- `c.gps`, `c.sens`, `c.priorGrad` are the constant data of this operation
+  let small := smallValue g (divideSmallNum c.map)
+  let alt := zip3With (fun gj sj pj =>
+      let d := denom c.map c.numSubsets pj sj
+      if small > 0 ∧ (near d small ∨ near gj small) then
+        some (if absR d ≤ small ∧ absR gj ≤ small then (if d = 0 then Ext.nan else Ext.fin (gj / d)) else Ext.fin 0)
+      else none) g s pg
+  if res.length ≠ alt.length then "bad-size" else
+  " ".intercalate ((res.zip alt).map fun (r, a) =>
+    match r with
+    | .fin _ => (match a with
+      | some o => fmtExt r ++ "|" ++ fmtExt o
+      | none => fmtExt r)
+    | _ => "*")
+
 def stepLine (st : St) (line : String) : St × String :=
   let toks := (line.trimAscii.toString.splitOn " ").filter (· ≠ "")
   let N (s : String) : Nat := s.toNat?.getD 0
@@ -179,6 +201,44 @@ def stepLine (st : St) (line : String) : St × String :=
       if !decide fires then (st, "inter-iteration-filter-mismatch")
       else (st, fmtImg (endOfIteration (st.cfg [] [] [] none (some fi)) k' img))
     | _, _ => (st, "bad-float")
+  | "post" :: k :: last :: fired :: rest =>
+    let secs := sections rest
+    let k' := N k
+    let last' := N last
+    match getVec secs "L" with
+    | some img =>
+      let hasF := (secs.find? (·.1 == "F")).isSome
+      if hasF != (fired == "1") then (st, "bad-op")
+      else if (k' == last') != hasF then (st, "post-filter-mismatch")   -- called exactly at the last sub-iteration
+      else match (if hasF then (getVec secs "F").map some else some none) with
+        | some fp =>
+          (st, fmtImg (endOfIterationPost (st.cfg [] [] [] none none) (fp.map fun o _ => o) last' k' img))
+        | none => (st, "bad-float")
+    | none => (st, "bad-float")
+  | "uimg" :: k :: subset :: rest =>
+    let secs := sections rest
+    let k' := N k
+    match getVec secs "G", getVec secs "S" with
+    | some g, some s =>
+      let hasP := (secs.find? (·.1 == "P")).isSome
+      match (if hasP then getVec secs "P" else some (g.map fun _ => 0)) with
+      | some pg =>
+        if g.length ≠ st.nvox ∨ s.length ≠ st.nvox ∨ pg.length ≠ st.nvox then (st, "bad-size")
+        else if subsetNum k' st.startSubset st.numSubsets ≠ N subset then (st, "bad-subset")
+        else if (st.map != .none) != hasP then (st, "prior-data-mismatch")
+        else (st, answerUimg (st.cfg g s pg none none) k' g s pg)
+      | none => (st, "bad-float")
+    | _, _ => (st, "bad-float")
+  | ["bal", v, d90, d180, sw, tof, phi, minv, maxv, maxseg, ns] =>
+    let I (s : String) : Int := s.toInt?.getD 0
+    let y := Sym.effective (I v) (d90 == "1") (d180 == "1") (sw == "1") (tof == "1") (phi == "1")
+    (st, if setUpAcceptsSubsets y (I minv) (I maxv) (I maxseg) (I ns) then "ok" else "err")
+  | ["init", "0", nv] => (st, fmtImg (initialData (N nv) .zeros))
+  | ["init", "1", nv] => (st, fmtImg (initialData (N nv) .ones))
+  | "init" :: "file" :: nv :: rest =>
+    match getVec (sections rest) "V" with
+    | some v => if v.length ≠ N nv then (st, "bad-size") else (st, fmtImg (initialData (N nv) (.file v)))
+    | none => (st, "bad-float")
   | _ => (st, "bad-op")
 
 partial def loop (h : IO.FS.Stream) (st : St) : IO Unit := do
